@@ -9,12 +9,12 @@ Proof.
     apply Nat.eqb_eq in H; subst; split; reflexivity.
 Qed.
 
-Lemma scan_skip_ws ia s rest : all_ws s = true ->
-  scan ENone [] ia (s ++ rest) = scan ENone [] ia rest.
+Lemma scan_skip_ws s rest : all_ws s = true ->
+  scan ENone [] false (s ++ rest) = scan ENone [] false rest.
 Proof.
   induction s as [|c s IH]; intros H; [reflexivity|].
   cbn [all_ws forallb] in H. apply andb_true_iff in H as [Hc Hs].
-  cbn [app scan]. destruct (ws_plain c Hc) as [-> ->]. rewrite Hc. cbn [nonempty]. now apply IH.
+  cbn [app scan]. destruct (ws_plain c Hc) as [-> ->]. rewrite Hc. now apply IH.
 Qed.
 
 Lemma scan_quoted q s acc rest : existsb (Nat.eqb q) s = false ->
@@ -162,6 +162,29 @@ Proof.
     now rewrite IH.
 Qed.
 
+(* a lone backslash at the very end quotes nothing and yields no argument *)
+Theorem flat_all_trailing_backslash : forall l fuel, items_ok l = true ->
+  Forall (fun it => nonempty (snd it) = true) l -> length l < fuel ->
+  flat_all fuel (render_items l ++ [92]) = Ok (expected l).
+Proof.
+  induction l as [|[w0 s0] l IH]; intros fuel Hok Hne Hf.
+  - destruct fuel; [lia|]. reflexivity.
+  - inversion Hne as [|? ? Hs0 Hne']; subst. cbn [snd] in Hs0.
+    destruct fuel as [|f]; [cbn in Hf; lia|].
+    assert (Hws : good_word w0 = true /\ all_ws s0 = true /\ items_ok l = true).
+    { destruct l as [|it l'].
+      - cbn [items_ok] in Hok. apply andb_true_iff in Hok as [? ?]. auto.
+      - change (items_ok ((w0, s0) :: it :: l')) with
+          (good_word w0 && all_ws s0 && nonempty s0 && items_ok (it :: l')) in Hok.
+        apply andb_true_iff in Hok as [Hok Hl]. apply andb_true_iff in Hok as [Hok _].
+        apply andb_true_iff in Hok as [? ?]. auto. }
+    destruct Hws as (Hw0 & Hsw & Hl).
+    unfold render_items, expected. cbn [map concat fst snd]. rewrite <- !app_assoc.
+    cbn [flat_all]. rewrite flat_next_word by assumption.
+    fold (render_items l). rewrite flat_all_lead by (now apply all_ws_tl).
+    fold (expected l). rewrite IH; [reflexivity|assumption|assumption|cbn in Hf; lia].
+Qed.
+
 (* ---- -0 / -d: split at the delimiter only, bytes verbatim ---- *)
 Lemma read_until_item d p rest : ~ In d p ->
   read_until d (p ++ d :: rest) = (p ++ [d], rest).
@@ -271,6 +294,15 @@ Proof.
   intros. unfold ws_read. rewrite chunk_independent. cbn [app].
   match goal with E : concat chunks = _ |- _ => rewrite E end.
   now apply flat_all_unterminated.
+Qed.
+
+Theorem ws_read_trailing_backslash chunks l :
+  items_ok l = true -> Forall (fun it => nonempty (snd it) = true) l ->
+  concat chunks = render_items l ++ [92] -> ws_read chunks = Ok (expected l).
+Proof.
+  intros Hok Hne E. unfold ws_read. rewrite chunk_independent. cbn [app]. rewrite E.
+  apply flat_all_trailing_backslash; try assumption.
+  rewrite app_length. pose proof (items_len l Hok). cbn [length]. lia.
 Qed.
 
 Theorem bd_read_fields d chunks : bd_read d chunks = fields d (concat chunks).
